@@ -1,6 +1,7 @@
 """./check configuration for C02 (see verif_props.py)."""
 
-PROP = {'module': 'GolibsVerif.Theorems.C02',
+PROP = {'technique': 'Lean proof of scanner equivalence: IPv4 automaton invariant, IPv6 one-step simulation between the golibs scanner and a statement-level model of netip.parseIPv6 (induction on fuel), zone/dispatch/port lemmas; differential tie incl. exhaustive short strings',
+ 'module': 'GolibsVerif.Theorems.C02',
  'modules': ['GolibsVerif.Theorems.C02', 'GolibsVerif.Theorems.C02IP'],
  'namespace': 'GolibsVerif.C02',
  'rule': 'IP texts from a shape grammar (0-9 fields x ellipsis position x IPv4 tail x zone x brackets x port digits) with byte mutations; '
